@@ -88,6 +88,14 @@ pub enum Op {
         max_spread: Option<String>,
         to: Option<usize>,
     },
+    /// a native-offer swap sent with a stray coin of a foreign denom next to the offer coin (`first`: the stray
+    /// denom sorts before every pool denom, else after); the stray coin is not a pool asset
+    SwapWithStrayCoin {
+        side: usize,
+        amount: u128,
+        stray: u128,
+        first: bool,
+    },
     Collect,
     SetFees {
         fees: [String; 3],
@@ -161,6 +169,8 @@ pub struct Pool2 {
     /// whether the next ProvideLiquidity message lists its assets in reverse order
     pub rev_next: std::cell::Cell<bool>,
     pub funds_mode_next: std::cell::Cell<u8>,
+    /// (amount, sorts first) of the stray coin the next native-offer swap message carries
+    pub stray_next: std::cell::Cell<Option<(u128, bool)>>,
     /// generator hint: the next step should be a fee collection (a swap just put the pending fee on a boundary)
     pub want_collect: bool,
     /// scripted steps to emit before anything else (everybody exits, then somebody deposits)
@@ -340,7 +350,16 @@ impl Pool2 {
                     max_spread,
                     to: to.map(|s| s.to_string()),
                 },
-                if amount > 0 { vec![coin(amount, denom)] } else { vec![] },
+                {
+                    let mut f = if amount > 0 { vec![coin(amount, denom)] } else { vec![] };
+                    if let Some((x, first)) = self.stray_next.get() {
+                        if x > 0 {
+                            f.push(coin(x, if first { "a0junk" } else { "zzjunk" }));
+                            f.sort_by(|a, b| a.denom.cmp(&b.denom));
+                        }
+                    }
+                    f
+                },
             ),
             AssetInfo::Token { contract_addr } => wasm_exec(
                 contract_addr,
@@ -588,7 +607,7 @@ impl Scenario for Pool2 {
         // genesis native balances
         let mut bals: Vec<(&str, Vec<Coin>)> = vec![];
         for u in USERS.iter().take(n) {
-            let mut cs = vec![coin(1_000_000, "ujunk")];
+            let mut cs = vec![coin(1_000_000, "ujunk"), coin(1_000_000, "a0junk"), coin(1_000_000, "zzjunk")];
             for i in 0..3 {
                 if cfg.kinds[i] == Kind::Native {
                     cs.push(coin(cfg.user_funds[i], denoms[i]));
@@ -748,6 +767,7 @@ impl Scenario for Pool2 {
             collector_now: COLLECTOR.to_string(),
             rev_next: std::cell::Cell::new(false),
             funds_mode_next: std::cell::Cell::new(0),
+            stray_next: std::cell::Cell::new(None),
             want_collect: false,
             queue: vec![],
         };
